@@ -94,7 +94,7 @@ def run(tier, rep):
             bad = ("IgnoreModeSilent", {"handler_calls": nh, "raises": nr})
         elif m["quit"] == 2 and nr != m["ndam"]:
             bad = ("RaiseOncePerDamage", {"raises": nr, "damaged": m["ndam"]})
-        elif any(e["then"] in ("handler", "raise") and e["cls"] != "RTCMParseError" for e in evs):
+        elif any(e["then"] in ("handler", "raise") and e["cls"] != "RTCMParseError" and not e.get("anycls") for e in evs):
             bad = ("DamageIsParseError", {"classes": sorted({e["cls"] for e in evs if e["then"] in ("handler", "raise")})})
         if bad:
             rep.reject(bad[0], facts, {**tr.replay_of(tid, v), **bad[1]})
